@@ -140,7 +140,7 @@ REGISTRY = {
             "run": _conv("C03", 40), "rule": RULE_CONV, "t1_sections": T1_CONV},
     "C06": {"props_file": "Props/C06.v", "files": CORE_CONV + ["Proofs/UnstructProofs.v", "Proofs/ClassRoundtrip.v", "Proofs/ConvSound.v", "Proofs/ConvRoundtrip.v", "Proofs/ConvAgree.v", "Proofs/ConvCfg.v", "Props/C06.v"],
             "run": _conv("C06", 40), "rule": RULE_CONV, "t1_sections": T1_CONV},
-    "C05": {"props_file": "Props/C05.v", "files": CORE_CONV + ["Model/ConvErr.v", "Proofs/ConvErrProofs.v", "Proofs/ConvCfg.v", "Props/C05.v"],
+    "C05": {"props_file": "Props/C05.v", "files": CORE_CONV + ["Model/ConvErr.v", "Proofs/ConvErrProofs.v", "Proofs/ConvErrGlobal.v", "Proofs/ConvCfg.v", "Props/C05.v"],
             "run": (lambda v, b, tier: (hooks_checks.check_hooks(v, b.t1_summary), err_checks.check_c05(v, b.t1_summary, 60 * SIZES[tier]))), "t1_sections": T1_CONV,
             "rule": "worlds as in the CONV lane plus TypedDicts (25% of the classes); per world 3 target types (a class, or a class inside list / mapping / tuple / Optional), "
                     "per type 3 valid payloads (the unstructured form of a generated value); into each payload k in {0,1,1,2,2,3,4,6} independent faults are injected at random "
